@@ -20,6 +20,9 @@ let bs = bytes_of_string
 let raw s = SRaw (Rdbgen.form (Random.State.make [| String.length s |]) (String.length s), bs s)
 
 let prefixes = [ "ab"; "user:"; "tmp" ]
+(* the pseudo key that makes the fake target refuse every SCRIPT LOAD *)
+let script_fail = "\000script"
+
 let gen_case st mode =
   let nkeys = 5 + rnd_int st 56 in
   let dbs = List.init (1 + rnd_int st 6) (fun _ -> rnd_pick st [ 0; 1; 2; 3; 5; 15; 100 ]) in
@@ -52,7 +55,7 @@ let gen_case st mode =
     | 0 -> ([ rnd_pick st prefixes ], []) | 1 -> ([], [ rnd_pick st prefixes; "k" ]) | _ -> ([], []) in
   { mode; parallel = rnd_pick st [ 1; 2; 4; 8; 32 ]; tdb = rnd_pick st [ -1; -1; 0; 2 ]; dbblack; dbwhite; keyblack; keywhite;
     slots = (if rnd_int st 4 = 0 then some_slots () else []); filterlua = rnd_int st 3 = 0; units;
-    fail = (if rnd_int st 6 = 0 then Some (List.nth !names (rnd_int st (List.length !names))) else None) }
+    fail = (match rnd_int st 12 with 0 | 1 -> Some (List.nth !names (rnd_int st (List.length !names))) | 2 -> Some script_fail | _ -> None) }
 
 let gen st tier =
   let n = if tier = "thorough" then 4000 else 300 in
@@ -64,7 +67,12 @@ let corpus = [
     units = [ UKey (raw "a", VStr (N0, raw "1")); UKey (raw "b", VStr (N0, raw "2")) ]; fail = Some "b" };
   (* F17 witness: a lua record in a blacklisted database *)
   { mode = "sync"; parallel = 1; tdb = -1; dbblack = [ "0" ]; dbwhite = []; keyblack = []; keywhite = [ "zz" ]; slots = []; filterlua = false;
-    units = [ ULua (L6, raw "return 1"); USelect (L6, n_of_int 1); UKey (raw "zz1", VStr (N0, raw "1")) ]; fail = None } ]
+    units = [ ULua (L6, raw "return 1"); USelect (L6, n_of_int 1); UKey (raw "zz1", VStr (N0, raw "1")) ]; fail = None };
+  (* the target refuses the script: both modes must report it *)
+  { mode = "sync"; parallel = 1; tdb = -1; dbblack = []; dbwhite = []; keyblack = []; keywhite = []; slots = []; filterlua = false;
+    units = [ USelect (L6, n_of_int 0); UKey (raw "a", VStr (N0, raw "1")); ULua (L6, raw "return 1"); UKey (raw "b", VStr (N0, raw "2")) ]; fail = Some script_fail };
+  { mode = "restore"; parallel = 3; tdb = -1; dbblack = []; dbwhite = []; keyblack = []; keywhite = []; slots = []; filterlua = false;
+    units = [ USelect (L6, n_of_int 0); UKey (raw "a", VStr (N0, raw "1")); ULua (L6, raw "return 1"); UKey (raw "b", VStr (N0, raw "2")) ]; fail = Some script_fail } ]
 
 let hexl l = if l = [] then "-" else String.concat "," (List.map hex_of_string l)
 let to_line c =
@@ -74,7 +82,7 @@ let to_line c =
 let show c =
   Printf.sprintf "%s, parallel=%d target.db=%d db.black=[%s] db.white=[%s] key.black=[%s] key.white=[%s] slots=[%s] filter.lua=%b%s; file: %s"
     c.mode c.parallel c.tdb (String.concat "," c.dbblack) (String.concat "," c.dbwhite) (String.concat "," c.keyblack) (String.concat "," c.keywhite)
-    (String.concat "," c.slots) c.filterlua (match c.fail with Some k -> "; the target refuses RESTORE of " ^ k | None -> "")
+    (String.concat "," c.slots) c.filterlua (match c.fail with Some k when k = script_fail -> "; the target refuses every SCRIPT LOAD" | Some k -> "; the target refuses RESTORE of " ^ k | None -> "")
     (let s = String.concat "; " (List.map Rdbgen.show_unit c.units) in if String.length s > 1500 then String.sub s 0 1500 ^ "..." else s)
 
 let fcfg_of c = { key_black = List.map bs c.keyblack; key_white = List.map bs c.keywhite; db_black = List.map bs c.dbblack; db_white = List.map bs c.dbwhite;
@@ -104,11 +112,13 @@ let judge c obs =
   let show_keys l = String.concat " " (List.map (fun (d, k, _) -> Printf.sprintf "db%d/%s" d k) l) in
   let expect = Printf.sprintf "%d keys: %s; %d scripts" (List.length exp_keys) (show_keys exp_keys) (List.length exp_scripts) in
   let aborted = Srcgen.field obs "abort" <> None || Srcgen.field obs "panic" <> None in
-  let failing = match c.fail with Some k -> List.exists (fun (_, k', _) -> k' = k) exp_keys | None -> false in
+  let failing = match c.fail with
+    | Some k when k = script_fail -> exp_scripts <> []
+    | Some k -> List.exists (fun (_, k', _) -> k' = k) exp_keys | None -> false in
   if failing then begin
     (* the run must report the failure *)
     if aborted || Srcgen.field obs "ret" = Some "err" then Agree
-    else fail "oracle" (c.mode ^ ":failure-not-reported") "the run reports the failed restore" impl "a restore failed on the target but the run finished as a success"
+    else fail "oracle" (c.mode ^ ":failure-not-reported") "the run reports the failed restore / script load" impl "a restore or script load failed on the target but the run finished as a success"
   end else if aborted then fail "oracle" (c.mode ^ ":abort") expect impl "the run aborted although no restore failed"
   else if Srcgen.field obs "ret" <> Some "ok" then fail "oracle" (c.mode ^ ":error") expect impl "the run reported an error although no restore failed"
   else begin
